@@ -438,6 +438,7 @@ pub struct Run {
     pub deadline_ms: u64,
     /// stack size of the threads cases run on
     pub stack: usize,
+    pub max_shrink_iters: u32,
 }
 
 impl Run {
@@ -466,6 +467,7 @@ impl Run {
             guard: false,
             deadline_ms: DEFAULT_DEADLINE_MS,
             stack: 8 << 20,
+            max_shrink_iters: 1500,
         }
     }
 
@@ -566,6 +568,7 @@ impl Run {
         let strict = self.strict;
         let guard = if self.guard { inflight() } else { None };
         let deadline_ms = self.deadline_ms;
+        let max_shrink_iters = self.max_shrink_iters;
         let open_ids: HashSet<String> = self
             .known
             .entries
@@ -591,7 +594,7 @@ impl Run {
                             cases: per,
                             rng_seed: RngSeed::Fixed(mix(base_seed, shard as u64)),
                             failure_persistence: None,
-                            max_shrink_iters: 4000,
+                            max_shrink_iters,
                             max_global_rejects: 1 << 20,
                             max_local_rejects: 1 << 20,
                             verbose: 0,
